@@ -286,7 +286,7 @@ def transform_body(body, dirs, log):
             for m in re.finditer(r'\bself\b', msk):
                 edits.append((m.start(), m.end(), ident))
             log['R2 self rename'] = log.get('R2 self rename', 0) + 1
-    edits.sort(key=lambda e: (e[0], e[1]))
+    edits.sort(key=lambda e: (e[0], -e[1]))
     # overlap check; a SELF edit inside another edit's range is dropped only if
     # the enclosing edit is a CLOSURE (its expr is re-emitted verbatim) -> handle
     # by applying SELF to the replacement text instead
@@ -458,7 +458,7 @@ def assemble(template_path, repo):
 
 
 RLIMIT_PAT = re.compile(r'[Rr]esource limit|rlimit')
-REFUTE_PAT = re.compile(r'unable to prove post-condition of closure|postcondition not satisfied|precondition not satisfied|assertion failed|invariant not satisfied|possible arithmetic (under|over)flow|possible division by zero|index out of bounds|loop invariant|decreases not satisfied|unreachable|failed this|could not (prove|show)')
+REFUTE_PAT = re.compile(r'precondition not met|index in bounds|unable to prove post-condition of closure|postcondition not satisfied|precondition not satisfied|assertion failed|invariant not satisfied|possible arithmetic (under|over)flow|possible division by zero|index out of bounds|loop invariant|decreases not satisfied|unreachable|failed this|could not (prove|show)')
 
 
 def run_verus(path, rlimit=30, timeout=600, extra=None):
